@@ -265,3 +265,42 @@ def describe(c):
 def tree_listing(path, limit=60):
     out = subprocess.run(['find', path, '-printf', '%y %s %T@ %P -> %l\\n'], capture_output=True).stdout.decode(errors='backslashreplace').splitlines()
     return sorted(out)[:limit]
+
+
+def snap_deep(root):
+    """like l3.snapshot but with everything a re-run could disturb: mtimes of folders and links, inode numbers"""
+    import hashlib, stat as _st
+    out = {}
+    def rec(p, rel):
+        try:
+            st = os.lstat(p)
+        except FileNotFoundError:
+            return
+        if _st.S_ISLNK(st.st_mode):
+            out[rel] = ('L', os.readlink(p), st.st_mtime_ns, st.st_ino)
+        elif _st.S_ISDIR(st.st_mode):
+            out[rel] = ('D', st.st_mtime_ns, st.st_ino)
+            for n in sorted(os.listdir(p)):
+                rec(os.path.join(p, n), (rel + b'/' + n) if rel else n)
+        elif _st.S_ISREG(st.st_mode):
+            with open(p, 'rb') as f:
+                h = hashlib.sha1(f.read()).hexdigest()
+            out[rel] = ('F', st.st_size, h, st.st_mtime_ns, st.st_ino)
+        else:
+            out[rel] = ('?', st.st_mode)
+    rec(os.fsencode(root), b'')
+    return out
+
+
+def expected_link_text(t):
+    """what the destination link must hold, exactly (unix to unix): the normal form of a relative, normalisable text; any other text verbatim"""
+    return norm_link(t)
+
+
+def small_texts(maxlen):
+    """every byte string of 1..maxlen symbols over {a, /, ., \\, é, 0xff} (no NUL, not empty)"""
+    import itertools
+    syms = [b'a', b'/', b'.', b'\\', 'é'.encode(), b'\xff']
+    for n in range(1, maxlen + 1):
+        for c in itertools.product(syms, repeat=n):
+            yield b''.join(c)
